@@ -255,74 +255,143 @@ theorem firstT_mem : ∀ (as : List Term) (p : List Nat) (x : Term), firstT as =
     · obtain ⟨an, hm⟩ := ih p x h
       exact ⟨an, List.mem_cons_of_mem _ hm⟩
 
-theorem mk_pw (nm att : String) (ann : Ann) (args : Term) :
+theorem mk_pw (L : Laws I WT) (nm att : String) (ann : Ann) (args : Term) :
     MkStmt I ρ (.pw nm att) ann args (mkPw nm att ann args) := by
   intro hs
   unfold mkPw
   split
-  · rename_i p xs hpa
+  · -- Not(const)
+    rename_i b
+    exact ⟨by simp [eval, applyHead, L.not_const], trivial⟩
+  · -- x * Sigmoid(x)
+    rename_i x an2 y
     split
-    · rename_i hargs
-      simp only [beq_iff_eq] at hargs
-      -- unpack pullArgs
-      unfold pullArgs at hpa
-      split at hpa
-      · simp at hpa
-      · rename_i p' x hfirst
+    · rename_i hc
+      simp only [Bool.and_eq_true, beq_iff_eq] at hc
+      obtain ⟨hp, he⟩ := hc
+      obtain ⟨t, ht⟩ := eval_proper I ρ hp
+      have hy : eval I ρ y = [t] := by
+        rw [← erase_eval I ρ y, ← he, erase_eval I ρ x, ht]
+      refine ⟨by simp [eval, ht, hy, applyHead, pw_self_compose _ _ _ L.swish], ?_⟩
+      simp only [AnnotSound]
+      exact ⟨⟨hs.1.1, trivial⟩, annOK_none _⟩
+    · exact mk_dflt I ρ _ _ _ hs
+  · -- Sigmoid(x) * x
+    rename_i an2 y x hneg
+    split
+    · rename_i hc
+      simp only [Bool.and_eq_true, beq_iff_eq] at hc
+      obtain ⟨hp, he⟩ := hc
+      obtain ⟨t, ht⟩ := eval_proper I ρ hp
+      have hy : eval I ρ y = [t] := by
+        rw [← erase_eval I ρ y, ← he, erase_eval I ρ x, ht]
+      refine ⟨by simp [eval, ht, hy, applyHead, pw_compose_self _ _ _ L.swish'], ?_⟩
+      simp only [AnnotSound]
+      exact ⟨⟨hs.1.2.1, trivial⟩, annOK_none _⟩
+    · exact mk_dflt I ρ _ _ _ hs
+  · split
+    · rename_i p xs kk hpa
+      split
+      · rename_i hargs
+        simp only [beq_iff_eq] at hargs
+        -- unpack pullArgs
+        unfold pullArgs at hpa
         split at hpa
         · simp at hpa
-        · rename_i hvalid
-          simp only [Bool.not_eq_true, Bool.not_eq_false'] at hvalid
-          have hsa : ∀ a ∈ args.toList, AnnotSound I ρ a := annot_toList I ρ args hs.1
-          obtain ⟨an0, hmem⟩ := firstT_mem _ _ _ hfirst
-          have key : ∃ ts, eval I ρ (ofList xs) = ts ∧ p = p' ∧
-              eval I ρ (ofList args.toList) = ts.map (transpose p') ∧
-              (∀ y ∈ xs, AnnotSound I ρ y) ∧ ∃ k, (∀ t ∈ ts, PullOK k t) ∧ ∃ t ∈ ts, t.rank = k := by
-            split at hpa
-            · -- unary
-              rename_i a0 hl
-              simp only [Option.map_eq_some_iff, Prod.mk.injEq] at hpa
-              obtain ⟨xs', hall, rfl, rfl⟩ := hpa
-              obtain ⟨ts, h1, h2, h3, _, h5⟩ := pullAll_sem I ρ p' Option.none _ _ hall hsa
-              obtain ⟨t, ht, hy⟩ := h5 an0 x hmem
-              -- ts is a singleton
-              have hlen : ts = [t] := by
-                have e : args.toList = [a0] := hl
-                rw [e] at h2 hmem
-                simp only [List.mem_singleton] at hmem
-                subst hmem
-                simp [ofList, eval, hy, applyHead] at h2
-                cases ts with
-                | nil => simp at h2
-                | cons t0 ts0 =>
-                  cases ts0 with
-                  | nil => simp at ht; subst ht; rfl
-                  | cons _ _ => simp at h2
-              subst hlen
-              exact ⟨[t], h1, rfl, h2, h3, t.rank, by intro t' ht'; simp at ht'; subst ht'; exact Or.inl rfl,
-                t, by simp, rfl⟩
-            · -- n-ary
+        · rename_i p' x hfirst
+          split at hpa
+          · simp at hpa
+          · rename_i hvalid
+            simp only [Bool.not_eq_true, Bool.not_eq_false'] at hvalid
+            have hsa : ∀ a ∈ args.toList, AnnotSound I ρ a := annot_toList I ρ args hs.1
+            obtain ⟨an0, hmem⟩ := firstT_mem _ _ _ hfirst
+            have hsx : AnnotSound I ρ x := (hsa _ hmem).1.1
+            have key : ∃ ts, eval I ρ (ofList xs) = ts ∧ p = p' ∧
+                eval I ρ (ofList args.toList) = ts.map (transpose p') ∧
+                (∀ y ∈ xs, AnnotSound I ρ y) ∧
+                ∃ k, (∀ t ∈ ts, PullOK k t) ∧ (∃ t ∈ ts, t.rank = k) ∧ (∀ k', kk = some k' → k' = k) := by
               split at hpa
-              · simp at hpa
-              · rename_i k hk
+              · -- unary
+                rename_i a0 hl
                 simp only [Option.map_eq_some_iff, Prod.mk.injEq] at hpa
-                obtain ⟨xs', hall, rfl, rfl⟩ := hpa
-                obtain ⟨ts, h1, h2, h3, h4, h5⟩ := pullAll_sem I ρ p' (some k) _ _ hall hsa
+                obtain ⟨xs', hall, rfl, rfl, rfl⟩ := hpa
+                obtain ⟨ts, h1, h2, h3, _, h5⟩ := pullAll_sem I ρ p' Option.none _ _ hall hsa
                 obtain ⟨t, ht, hy⟩ := h5 an0 x hmem
-                have hsx : AnnotSound I ρ x := by
-                  have := hsa _ hmem
-                  exact this.1.1
-                have hr := rankOf_sound I ρ x hsx k hk t hy
-                exact ⟨ts, h1, rfl, h2, h3, k, h4 k rfl, t, ht, hr⟩
-          obtain ⟨ts, h1, hpp, h2, h3, k, hok, hex⟩ := key
-          subst hpp
-          have hpv : validPerm p = true := hvalid
-          refine ⟨?_, ?_⟩
-          · have e : eval I ρ args = ts.map (transpose p) := by rw [hargs]; exact h2
-            simp only [eval, applyHead, e, h1, List.append_nil]
-            rw [pw_transpose (I.fn nm att) p hpv ts k hok hex]
-          · simp only [AnnotSound]
-            exact ⟨⟨⟨(annot_ofList I ρ xs).2 h3, annOK_none _⟩, trivial⟩, annOK_none _⟩
+                have hlen : ts = [t] := by
+                  have e : args.toList = [a0] := hl
+                  rw [e] at h2 hmem
+                  simp only [List.mem_singleton] at hmem
+                  subst hmem
+                  simp [ofList, eval, hy, applyHead] at h2
+                  cases ts with
+                  | nil => simp at h2
+                  | cons t0 ts0 =>
+                    cases ts0 with
+                    | nil => simp at ht; subst ht; rfl
+                    | cons _ _ => simp at h2
+                subst hlen
+                refine ⟨[t], h1, rfl, h2, h3, t.rank, ?_, ⟨t, by simp, rfl⟩, ?_⟩
+                · intro t' ht'; simp at ht'; subst ht'; exact Or.inl rfl
+                · intro k' hk'
+                  exact (rankOf_sound I ρ x hsx k' hk' t hy).symm
+              · -- n-ary
+                split at hpa
+                · simp at hpa
+                · rename_i k hk
+                  simp only [Option.map_eq_some_iff, Prod.mk.injEq] at hpa
+                  obtain ⟨xs', hall, rfl, rfl, rfl⟩ := hpa
+                  obtain ⟨ts, h1, h2, h3, h4, h5⟩ := pullAll_sem I ρ p' (some k) _ _ hall hsa
+                  obtain ⟨t, ht, hy⟩ := h5 an0 x hmem
+                  have hr := rankOf_sound I ρ x hsx k hk t hy
+                  exact ⟨ts, h1, rfl, h2, h3, k, h4 k rfl, ⟨t, ht, hr⟩, by intro k' hk'; cases hk'; rfl⟩
+            obtain ⟨ts, h1, hpp, h2, h3, k, hok, hex, hkk⟩ := key
+            subst hpp
+            have hpv : validPerm p = true := hvalid
+            have hrank : maxRank ts = k := maxRank_eq ts k hok hex
+            refine ⟨?_, ?_⟩
+            · have e : eval I ρ args = ts.map (transpose p) := by rw [hargs]; exact h2
+              simp only [eval, applyHead, e, h1, List.append_nil]
+              rw [pw_transpose (I.fn nm att) p hpv ts k hok hex]
+            · simp only [AnnotSound]
+              refine ⟨⟨⟨(annot_ofList I ρ xs).2 h3, ?_⟩, trivial⟩, annOK_none _⟩
+              -- the derived annotation of the new inner node is true
+              constructor
+              · intro d hd
+                simp only [derivedAnn] at hd
+                cases xs with
+                | nil => simp at hd
+                | cons x0 xr =>
+                  simp only at hd
+                  have hsx0 : AnnotSound I ρ x0 := h3 x0 (List.mem_cons_self ..)
+                  obtain ⟨t0, ht0⟩ := eval_proper I ρ (dtypeOf_some_proper hd)
+                  have hdt := (dtypeOf_sound_aux I ρ x0).1 hsx0 d hd t0 ht0
+                  simp [ofList, eval, ht0, applyHead, pw, hdt]
+              · intro sh hsh
+                simp only [derivedAnn, Option.map_eq_some_iff] at hsh
+                obtain ⟨n, hn, rfl⟩ := hsh
+                have := hkk n hn
+                subst this
+                simp [applyHead, pw, h1, hrank]
+      · exact mk_dflt I ρ _ _ _ hs
+    · exact mk_dflt I ρ _ _ _ hs
+
+theorem mk_reduce (L : Laws I WT) (nm : String) (axes : List Nat) (ann : Ann) (args : Term) :
+    MkStmt I ρ (.reduce nm axes) ann args (mkReduce nm axes ann args) := by
+  intro hs
+  unfold mkReduce
+  split
+  · rename_i p an2 a
+    split
+    · rename_i hc
+      simp only [Bool.and_eq_true, beq_iff_eq, List.all_eq_true, decide_eq_true_eq] at hc
+      obtain ⟨⟨⟨hp, hv⟩, hr⟩, hax⟩ := hc
+      obtain ⟨t, ht⟩ := eval_proper I ρ hp
+      have hsa : AnnotSound I ρ a := hs.1.1.1.1
+      have hrk := rankOf_sound I ρ a hsa _ hr t ht
+      refine ⟨?_, ?_⟩
+      · simp [eval, ht, applyHead, L.reduce_transpose nm axes p t hv hrk hax]
+      · simp only [AnnotSound]
+        exact ⟨⟨⟨⟨hsa, trivial⟩, annOK_none _⟩, trivial⟩, annOK_none _⟩
     · exact mk_dflt I ρ _ _ _ hs
   · exact mk_dflt I ρ _ _ _ hs
 
@@ -334,9 +403,9 @@ theorem mk_sound (L : Laws I WT) (hWT : ∀ t x, x ∈ eval I ρ t → WT x) (h 
   | transpose q => exact mk_transpose I ρ q ann args
   | cast to => exact mk_cast I ρ WT L hWT to ann args
   | castLike => exact mk_castLike I ρ ann args
-  | pw nm att => exact mk_pw I ρ nm att ann args
+  | pw nm att => exact mk_pw I ρ WT L nm att ann args
   | reshape => exact fun hs => mk_dflt I ρ _ _ _ hs
-  | reduce nm ax => exact fun hs => mk_dflt I ρ _ _ _ hs
+  | reduce nm ax => exact mk_reduce I ρ WT L nm ax ann args
   | opq op att k => exact fun hs => mk_dflt I ρ _ _ _ hs
 
 end J2O.C02
